@@ -708,5 +708,68 @@ theorem findE_isSome_iff (e : K → K → Bool) (k : K) (l : List (K × V)) :
     | false => simp [hk, ih]
 
 
+/-! ### `map_values` with an erroring callback: the first error in iteration order -/
+
+theorem foldF_fresh_err {W : Type} (C : Consistent hash eq) (onE : K → Res W) (onO : K → W → Res W)
+    (pre : List (K × V)) (k : K) (v : V) (rest : List (Res K)) (er : Err)
+    (hp : (pre ++ [(k, v)]).Pairwise (fun x y => C.e x.1 y.1 = false))
+    (hpre : ∀ kv ∈ pre, ∃ w, onE kv.1 = .ok w) (hk : onE k = .error er)
+    (acc : K → Option W) (hacc : ∀ kv ∈ pre ++ [(k, v)], acc kv.1 = none) :
+    foldF C onE onO acc (pre.map (fun kv => .ok kv.1) ++ .ok k :: rest) = .error er := by
+  induction pre generalizing acc with
+  | nil =>
+    have h0 : acc k = none := hacc (k, v) (by simp)
+    simp [foldF, stepF, newVal, h0, hk]
+  | cons kv r ih =>
+    obtain ⟨k0, v0⟩ := kv
+    rw [List.cons_append, List.pairwise_cons] at hp
+    have h0 : acc k0 = none := hacc (k0, v0) (by simp)
+    obtain ⟨w, hw⟩ := hpre (k0, v0) (by simp)
+    simp only [List.map_cons, List.cons_append, foldF, stepF, h0, newVal, hw]
+    apply ih hp.2 (fun kv hkv => hpre kv (List.mem_cons_of_mem _ hkv))
+    intro kv hkv
+    have h1 := hp.1 kv hkv
+    have : C.e kv.1 k0 = false := by
+      cases h2 : C.e kv.1 k0
+      · rfl
+      · have := C.symm _ _ h2; simp [this] at h1
+    simp [this, hacc kv (by simp at hkv ⊢; right; exact hkv)]
+
+theorem mapValues_err {W : Type} (C : Consistent hash eq) (f : V → Res W) {t : Table K V} (hI : Inv C t)
+    (pre post : List (K × V)) (k : K) (v : V) (er : Err) (hsplit : toList t = pre ++ (k, v) :: post)
+    (hpre : ∀ kv ∈ pre, ∃ w, f kv.2 = .ok w) (hv : f v = .error er) :
+    mapValues hash eq f t = .error er := by
+  have hclear : (if t.len = 0 then ({ buckets := t.buckets.map (fun hb => (hb.1, [])), len := t.len } : Table K W)
+      else empty) = empty := by
+    split
+    · rename_i h0; simp [buckets_nil_of_len_zero C hI h0, h0, empty]
+    · rfl
+  have hE : Inv C (empty : Table K W) := ⟨trivial, rfl⟩
+  have hspec := updateFromKeys_spec C
+    (fun k => match get2 hash eq t k with | .error e => .error e | .ok v => f v)
+    (fun _ _ => (.error (.err "unreachable") : Res W)) hE ((keys t).map .ok)
+  have hkeys : (keys t).map (Except.ok (ε := Err)) =
+      pre.map (fun kv => .ok kv.1) ++ .ok k :: post.map (fun kv => .ok kv.1) := by
+    simp [keys, hsplit, List.map_map, Function.comp_def]
+  have hpw := toList_pairwise C hI
+  rw [hsplit] at hpw
+  have hpw' : (pre ++ [(k, v)]).Pairwise (fun x y => C.e x.1 y.1 = false) := by
+    have : pre ++ (k, v) :: post = (pre ++ [(k, v)]) ++ post := by simp
+    rw [this] at hpw
+    exact (List.pairwise_append.1 hpw).1
+  have hstored : ∀ kv ∈ pre ++ [(k, v)], kv ∈ toList t := by
+    intro kv hkv; rw [hsplit]; simp at hkv ⊢; rcases hkv with h | h
+    · left; exact h
+    · right; left; exact h
+  rw [hkeys, foldF_fresh_err C _ _ pre k v _ er hpw'
+    (fun kv hkv => by
+      obtain ⟨w, hw⟩ := hpre kv hkv
+      refine ⟨w, ?_⟩
+      obtain ⟨k0, v0⟩ := kv
+      simp only [get2_eq C hI, lookB_of_stored C hI (hstored (k0, v0) (by simp [hkv])), hw])
+    (by simp only [get2_eq C hI, lookB_of_stored C hI (hstored (k, v) (by simp)), hv])
+    _ (fun _ _ => rfl)] at hspec
+  unfold mapValues; rw [hclear, hkeys]; exact hspec
+
 end
 end XrayModel.HM
